@@ -75,10 +75,13 @@ func init() {
 			"distinct_nontrivial = distinct (context kind, incoming kind, decision) triples decided by the reference on the executed sequences",
 		Assumptions: []string{
 			"'(' is only emitted directly after a directive that has no free-text body (after Description a '(' line is text by the language)",
-			"the admissibility table itself is trusted: the repository's suite tests it cell by cell",
+			"the admissibility table is part of the language: the reference walk uses a frozen copy (generated from the pinned tree by tools/gentable.go.txt) and the library's live table is compared with it cell by cell",
 		},
 		Exhaustive: true,
 		Families: []fw.Family{
+			{Name: "table", N: func(string) int { return 1 }, Gen: func(r *xrand.Rand, idx int, tier string) *fw.Case {
+				return &fw.Case{Docs: []run.Doc{{}}}
+			}, Eval: c06EvalTable},
 			{Name: "sequences", Stream: c06StreamSequences, Eval: c06Eval},
 			{Name: "random", N: constN(30000, 1200000), Gen: c06GenRandom, Eval: c06Eval},
 			{Name: "paste", N: constN(20000, 600000), Gen: c06GenPaste, Eval: c06EvalPaste},
@@ -183,6 +186,19 @@ func c06StreamSequences(t *fw.T, shard, nshards int, emit func(*fw.Case)) {
 					send(s)
 				}
 			}
+			// parentheses that no directive owns: at the very beginning, a second '(' for the same directive, a '(' right after a ')'
+			if !sparse || n%11 == 0 {
+				send(append([]int{-1}, prefix...))
+				for i := 0; i < L; i++ {
+					if c06Spellings[prefix[i]].noOpen {
+						continue
+					}
+					dbl := append(append(append([]int{}, prefix[:i+1]...), -1, -1), prefix[i+1:]...)
+					send(append(dbl, -2))
+					send(append(dbl, -2, -2))
+					send(append(append(append([]int{}, prefix[:i+1]...), -1, -2, -1), prefix[i+1:]...))
+				}
+			}
 			for j := 0; j < L; j++ { // lone ')' after directive j
 				if sparse && (n+j)%5 != 0 {
 					continue
@@ -235,8 +251,9 @@ func c06GenRandom(r *xrand.Rand, idx int, tier string) *fw.Case {
 	}
 	// never '(' directly after ')' or at the very beginning (no directive to open: outside the statement)
 	var clean []int
+	keepOrphans := idx%5 == 0 // a '(' that no directive owns must be refused: kept in a fifth of the sequences
 	for i, s := range seq {
-		if s == -1 && (i == 0 || seq[i-1] < 0) {
+		if s == -1 && (i == 0 || seq[i-1] < 0) && !keepOrphans {
 			continue
 		}
 		clean = append(clean, s)
@@ -331,10 +348,6 @@ func c06Eval(t *fw.T, c *fw.Case) {
 	text := c06Render(seq)
 	c.Docs[0] = run.Single([]byte(text))
 	want, wantRej := resolver.Resolve(seqEvents(seq, text))
-	if wantRej == resolver.OrphanOpen {
-		t.Count("skipped_open_without_directive")
-		return
-	}
 	got, msg, pv := scanOnly(text)
 	t.Count("executions")
 	if pv != nil {
@@ -660,4 +673,27 @@ func c06EvalSplit(t *fw.T, c *fw.Case) {
 		last = "close-paren"
 	}
 	t.Distinct("split before " + last)
+}
+
+
+// c06EvalTable: what each kind of context admits is part of the language: the library's table is compared cell by cell
+// with the frozen copy the reference walk uses.
+func c06EvalTable(t *fw.T, c *fw.Case) {
+	var kinds []directive.Enumeration
+	for k := directive.Jsight; k <= directive.Tags; k++ {
+		kinds = append(kinds, k)
+	}
+	for _, p := range kinds {
+		t.Count("table_cells_compared")
+		if got, want := p.IsAllowedForRootContext(), resolver.GoldenRoot(p.String()); got != want {
+			t.Violation("admissibility-table-differs:root:"+p.String(), fmt.Sprintf("the top level admits %s: library %v, language definition %v", p.String(), got, want))
+		}
+		for _, ch := range kinds {
+			t.Count("table_cells_compared")
+			if got, want := p.IsAllowedForDirectiveContext(ch), resolver.GoldenAdmits(p.String(), ch.String()); got != want {
+				t.Violation("admissibility-table-differs:"+p.String()+":"+ch.String(), fmt.Sprintf("%s admits %s: library %v, language definition %v", p.String(), ch.String(), got, want))
+			}
+		}
+	}
+	t.Distinct("table")
 }
